@@ -107,7 +107,7 @@ def run(ctx, args):
             tags = [(p, n) for p, n, _ in tree.nodes if isinstance(n, TagNode)]
             allnodes = [n for _, n, _ in tree.nodes]
             seen = {}
-            ctx.count(0, "tree:" + kind)
+            ctx.cov["distribution"]["tree:" + kind] = ctx.cov["distribution"].get("tree:" + kind, 0) + 1
             for pos, n in tags:
                 paths = {}
                 for name, flt in ambient_filters():
